@@ -8,7 +8,7 @@ from sys import maxsize
 
 from mc.engine import hbfs, par
 from mc.engine.report import Violation
-from mc.engine.seams import Canon, reset_library
+from mc.engine.seams import Canon, reset_library, public_snapshot
 
 import ECAgent.Core as Core
 
@@ -192,11 +192,11 @@ class Multi:
         if kind == 'add':
             sid = self.spec[op[1]][1]
             if sid in self._byid(w):
-                before = self.canon(w)
+                before = public_snapshot(w.model)
                 try:
                     w.model.systems.add_system(w.objs[op[1]])
                 except KeyError:
-                    if self.canon(w) != before:
+                    if public_snapshot(w.model) != before:
                         raise Violation(f'rejected registration of {op[1]} changed the scheduler')
                     return
                 raise Violation('duplicate registration accepted')
@@ -216,7 +216,7 @@ class Multi:
             raise Violation(f'removal of unknown system {op[1]} accepted')
         if kind == 'bad':
             n = BAD_N[op[1]]
-            before = self.canon(w)
+            before = public_snapshot(w.model)
             n0 = len(w.log)
             want = ValueError if (type(n) is int) else TypeError
             try:
@@ -225,7 +225,7 @@ class Multi:
                 if type(e) is not want:
                     raise Violation(f'execute({n!r}) raised {type(e).__name__}', expected=want.__name__,
                                     observed=type(e).__name__)
-                if self.canon(w) != before or len(w.log) != n0:
+                if public_snapshot(w.model) != before or len(w.log) != n0:
                     raise Violation(f'rejected execute({n!r}) changed the model or ran a system')
                 return
             raise Violation(f'execute({n!r}) was accepted', expected=want.__name__, observed='no exception')
